@@ -17,6 +17,20 @@ import (
 	"time"
 )
 
+// c07GapSlots: the highest three consecutive slots none of the keys k0..k29 hashes to
+func c07GapSlots() []int {
+	used := map[int]bool{}
+	for i := 0; i < 30; i++ {
+		used[simSlot([]byte("k"+strconv.Itoa(i)))] = true
+	}
+	for s := 16381; s >= 0; s-- {
+		if !used[s] && !used[s+1] && !used[s+2] {
+			return []int{s, s + 1, s + 2}
+		}
+	}
+	return nil
+}
+
 func runC07(line string) string {
 	loadFactor = measureLoad() // the machine's load may have changed since the process started
 	hd := strings.SplitN(line, " # ", 2)
@@ -31,6 +45,15 @@ func runC07(line string) string {
 		layout = append(layout, [3]int{lo, hi, nd})
 	}
 	cl.setLayout(layout)
+	if f[len(f)-1] == "gap" {
+		// three slots no key of these histories hashes to are served by nobody (a slot dropped during a reshard, a
+		// cluster that does not require full coverage): the layout the nodes report is valid all the same
+		cl.mu.Lock()
+		for _, s := range c07GapSlots() {
+			cl.owner[s] = 1 << 20
+		}
+		cl.mu.Unlock()
+	}
 	// rep=<m>,<m>..: a replica of each master named, in that order (node indices n, n+1, ..); configured hosts as well
 	if len(f) > 2 && strings.HasPrefix(f[2], "rep=") {
 		for _, x := range strings.Split(strings.TrimPrefix(f[2], "rep="), ",") {
@@ -450,7 +473,12 @@ func init() {
 				}
 			}
 			hist[fmt.Sprintf("nodes=%d", n)]++
-			runLine(fmt.Sprintf("%d %s%s # %s", n, c03Layout(r, n), rep, strings.Join(ops, " ; ")))
+			gap := ""
+			if r.chance(1, 3) {
+				gap = " gap"
+				hist["three slots served by nobody"]++
+			}
+			runLine(fmt.Sprintf("%d %s%s%s # %s", n, c03Layout(r, n), rep, gap, strings.Join(ops, " ; ")))
 		}
 		writeHist(hist)
 	})
